@@ -19,7 +19,10 @@ var zzFirsts = []byte{0x00, 0x01, 0xff, 0x7f, 0xfe}
 func zzHash(name string, nFirst int) []byte {
 	h := make([]byte, 16)
 	h[0] = zzFirsts[zzverif.Choose(name+".first", nFirst)]
-	h[1] = zzverif.Byte(name + ".second")
+	// symPos: which byte is the free solver variable (1 = right behind the fan-out byte;
+	// 8..15 = in the second half, so that hashes with equal first bytes share their first
+	// 8 bytes)
+	h[zzverif.Param("symPos", 1)] = zzverif.Byte(name + ".second")
 	return h
 }
 
